@@ -726,7 +726,30 @@ def root(n: size, x: f32[8], flag: bool):
     return GenProgram(HEADER + body, "root", [], [], {"template": "else_moves", "prefer_ops": ["eliminate_dead_code", "fission", "lift_scope", "eliminate_dead_code", "fission", "std.lift_if"]})
 
 
-ALL = [t_temp2d, t_temp2d_call, t_two_loops, t_reduce_const, t_sliding, t_two_temps, t_split_range, t_writes, t_matmul, t_conv1d, t_blur, t_name_clash, t_config_loop, t_mod_trip, t_quasi, t_config_arg, t_config_first_iter, t_dup_blocks, t_nested_windows, t_sig_calls, t_adjacent_loops, t_config_callees, t_shared_iter, t_else_moves]
+def t_alias_alloc(rng):
+    """a local buffer that is (also) accessed through a window statement cut from its upper part:
+    storage rewrites of the buffer (resize_dim, divide_dim, expand_dim, stage_mem, reuse_buffer)
+    have to count the accesses made through the window"""
+    N = _c(rng, [12, 16])
+    lo = _c(rng, [N // 2, N // 2, N - 4])
+    w = N - lo
+    use = _c(rng, ["w[i] = y[i]", "w[i] += y[i]", "w[i] = y[i] * 2.0"])
+    rd = _c(rng, [f"y[i] = x[i + {lo}] + w[i]", "y[i] = w[i]", "y[i] = w[i] + x[0]", f"y[i] = x[i + {lo}]"])
+    body = f"""@proc
+def root(y: f32[{w}]):
+    x: f32[{N}]
+    for i in seq(0, {_c(rng, [lo, lo, N])}):
+        x[i] = 0.0
+    w = x[{lo}:{N}]
+    for i in seq(0, {w}):
+        {use}
+    for i in seq(0, {w}):
+        {rd}
+"""
+    return GenProgram(HEADER + body, "root", [], [], {"template": "alias_alloc", "op_sequence": _c(rng, [["resize_dim"], ["resize_dim"], ["divide_dim"], ["stage_mem"], ["expand_dim", "resize_dim"]]), "prefer_ops": ["resize_dim", "resize_dim", "divide_dim", "expand_dim", "stage_mem", "lift_alloc", "sink_alloc"]})
+
+
+ALL = [t_temp2d, t_temp2d_call, t_two_loops, t_reduce_const, t_sliding, t_two_temps, t_split_range, t_writes, t_matmul, t_conv1d, t_blur, t_name_clash, t_config_loop, t_mod_trip, t_quasi, t_config_arg, t_config_first_iter, t_dup_blocks, t_nested_windows, t_sig_calls, t_adjacent_loops, t_config_callees, t_shared_iter, t_else_moves, t_alias_alloc]
 
 
 def any_template(rng):
